@@ -372,6 +372,31 @@ def second_object_table(r, rng):
     return r
 
 
+def slash_recipes(seed, tier, n):
+    """directed: recipes whose stored keys contain '/' (leading, trailing, inner, repeated): a key is an opaque string"""
+    srng = random.Random(f"C17/slash/{seed}/{tier}")
+    orig = gen_hyperv._key
+
+    def slash_key(rng, used):
+        k = orig(rng, used)
+        if len(k.encode()) > 200:
+            return k
+        for form in rng.sample([k + "/x", "/" + k, k + "/", k[:1] + "/" + k[1:], "a/b/" + k, k + "//0"], 6):
+            if form not in used:
+                used.discard(k)
+                used.add(form)
+                return form
+        return k
+    out = []
+    gen_hyperv._key = slash_key
+    try:
+        for _ in range(n):
+            out.append(gen_hyperv.gen_recipe(srng, "quick"))
+    finally:
+        gen_hyperv._key = orig
+    return out
+
+
 def generate(seed, tier):
     rng = random.Random(f"C17/{seed}/{tier}")
     n = 200 if tier == "quick" else 2600
@@ -387,6 +412,8 @@ def generate(seed, tier):
     for i in range(60 if tier == "quick" else 1200):
         r = gen_hyperv.gen_recipe(rng, "quick")
         cases.append({"id": f"h{i}", "recipe": r, "hostile": [HOSTILE[(i + seed) % len(HOSTILE)], rng.randrange(1 << 30)], "queries": ["as_dict", "typed"]})
+    for i, r in enumerate(slash_recipes(seed, tier, 16 if tier == "quick" else 160)):
+        cases.append({"id": f"k{i}", "recipe": r, "queries": ["as_dict", "typed"]})
     return cases
 
 
@@ -464,17 +491,17 @@ def impl_run(case, built):
             errors.setdefault(tag, f"as_dict: {type(e).__name__}: {e}"[:300])
             return None
 
-    def walk(children, pfx, leaves):
+    def walk(children, pfx, leaves, keys=()):
         out = []
         for k, e in children.items():
             p = _path(pfx, k)
             if e.type == KeyDataType.Node:
                 out.append(p + ":N")
-                out += walk(e.children, p, leaves)
+                out += walk(e.children, p, leaves, keys + (k,))
             else:
                 v = e.value
                 out.append(p + ":" + _val_canon(e.type.name, gen_hyperv.canon(v)))
-                leaves.append((out[-1], p, e))
+                leaves.append((out[-1], p, e, keys + (k,)))
         return out
 
     def typed(tag, leaves):
@@ -490,7 +517,19 @@ def impl_run(case, built):
     t2 = typed("1b", [])
     same = (a1 == a2) and (t1 == t2)
     if t1 is not None:
-        for item, p, e in reversed(leaves):
+        # the other observation point: HyperVFile[key][key]... must reach the very entry the walk found under the stored keys
+        for item, p, e, keys in leaves:
+            try:
+                x = hv[keys[0]]
+                for k in keys[1:]:
+                    x = x[k]
+                if x is not e:
+                    raise LookupError("another entry")
+            except Exception as ex:  # noqa
+                same = False
+                errors["R"] = f"lookup {p}: {type(ex).__name__}: {ex}"[:200]
+                break
+        for item, p, e, _keys in reversed(leaves):
             try:
                 again = p + ":" + _val_canon(e.type.name, gen_hyperv.canon(e.value))
             except Exception as ex:  # noqa
